@@ -65,7 +65,13 @@ def make_scenarios(ctx, count):
             s = H.Scenario("%s%d" % (tag, i), meta=dict(frames=frames, cfg=cfg, style=style, pair=i, flow=use_flow))
             s.add("FILL " + fill)
             s.iface(0, **H.iface_kw(cfg)).glob(**G.global_kw(glob))
+            grng = G.rng_for(ctx.seed, "C02gap", i) if i % 2 else None       # the same clock in both runs of the pair
+            if grng is not None and grng.random() < 0.5:
+                s.add("NOW %d" % grng.choice(s.BASES_MS))
             for fr in frames:
+                if grng is not None and grng.random() < 0.2:
+                    s.add("ADV %d" % grng.choice(s.GAPS_MS))
+                    s.meta["clock_gaps"] = s.meta.get("clock_gaps", 0) + 1
                 s.frame(0, fr, op="W" if use_flow else "F")
             lst.append(s)
     return a + b
@@ -189,3 +195,4 @@ def run(ctx):
     rep.need("determinism_pairs", c.get("determinism_pairs", 0), ctx.n(2300, 48000))
     for op in ("Hello", "Probe", "Train", "ACK", "QueryResp", "QueryLargeTlvResp"):
         rep.need("sent:" + op, c.get("sent:" + op, 0), 100)
+    rep.need("clock_gaps_between_frames", rep.counters.get("clock_gaps_between_frames", 0), 200)
